@@ -77,6 +77,10 @@ def bin_masks(A, offsets, opts, diag_weight=1):
                 dev = np.median(np.abs(lz - med))
                 cutoff = np.exp(med - opts["mad_max"] * dev)
                 near = np.isclose(m, cutoff, rtol=1e-9, atol=0)
+                if cutoff == 1.0:
+                    # MAD = 0 and median log-marginal 0: log and exp are exact here, so a normalised marginal of
+                    # exactly 1.0 is not "less than" the cut-off and the documented (strict) filter keeps the bin
+                    near &= ~(m == 1.0)
                 must |= (m < cutoff) & ~near
                 tie |= near
     if opts.get("blacklist"):
